@@ -3,7 +3,8 @@
 P="$1"; shift
 cd /repo || exit 9
 if ! git diff --quiet; then echo "repo dirty"; exit 9; fi
-git apply "$P" 2>/dev/null || git apply -3 "$P" || { echo "patch does not apply"; git checkout -- .; exit 9; }
+git apply "$P" 2>/dev/null || git apply -3 "$P" 2>/dev/null || { echo "== patch does not apply"; git reset -q --hard HEAD; exit 9; }
+if git diff --name-only --diff-filter=U | grep -q .; then echo "== patch applies only with conflicts"; git reset -q --hard HEAD; exit 9; fi
 git reset -q
 cd /verif
 for id in "$@"; do
@@ -11,4 +12,4 @@ for id in "$@"; do
   echo "== $id exit=$rc $(grep -c '^VIOLATION' /tmp/mut-$id.log) violations; $(grep -c '^INCONCLUSIVE' /tmp/mut-$id.log) inconclusive; $(tail -1 /tmp/mut-$id.log | cut -c1-160)"
   grep '^VIOLATION\|^INCONCLUSIVE' /tmp/mut-$id.log | head -2 | cut -c1-250
 done
-git -C /repo checkout -- .
+git -C /repo reset -q --hard HEAD
